@@ -14,11 +14,13 @@ GRAMMARS = {
     'alt_name_rules': ([('start', S(A(C('ident'), C('anyw')), OPT(T('!')))), ('ident', P('[a-z]+')), ('anyw', P('[a-z]+'))], ['if', 'a'], ['ident'], "@@keyword :: if a\n"),
     'memo_prefix': ([('start', A(S(C('word'), T('x')), S(C('word'), T('y')), S(P('i'), C('word')))), ('word', P('[a-z]+?(?=[xy]|$)|[a-z]'))], ['if', 'i'], ['word'], "@@keyword :: if i\n"),
     'named_value': ([('start', S(N('n', C('word')), OPT(N('m', C('word'))))), ('word', A(T('if'), T('a'), P('[b-z]+')))], ['if'], ['word'], "@@keyword :: if\n"),
+    # keywords that are not purely alphanumeric (underscore, dash, a lone underscore): reserved all the same
+    'punct_keywords': ([('start', S(REP1(C('word')), EOF_)), ('word', P('[a-z_-]+'))], ['a_', 'b-c', '_', 'if'], ['word'], "@@keyword :: a_ 'b-c' _ if\n"),
     # more keywords than fit on one row of any table a generator might lay out; two directives, words and quoted strings
     'many_keywords': ([('start', S(REP1(C('word')), EOF_)), ('word', P('[a-z]+'))], ['as', 'at', 'by', 'do', 'if', 'in', 'is', 'of', 'on', 'or', 'to', 'up'], ['word'],
                       "@@keyword :: as at by do if in\n@@keyword :: 'is' of on 'or' to up\n"),
 }
-WARM = ['', 'a', 'if', 'of', 'on', 'up', 'as', 'ofon', 'of a', 'IF', 'fi', 'ifa', 'if a', 'a if', 'iff', 'i', 'ifx', 'ix', 'aif', 'If a', 'if!', 'ab', 'a b', 'fi a', 'ify', 'ii', 'if if']
+WARM = ['', 'a', '_', 'a_', 'b-c', 'a_ x', '__', 'b-', 'if', 'of', 'on', 'up', 'as', 'ofon', 'of a', 'IF', 'fi', 'ifa', 'if a', 'a if', 'iff', 'i', 'ifx', 'ix', 'aif', 'If a', 'if!', 'ab', 'a b', 'fi a', 'ify', 'ii', 'if if']
 BUDGET = {0: 40, 1: 40, 2: 80, 3: 360, 4: 1200, 5: 3600}
 
 
@@ -34,6 +36,8 @@ def plan(tier, seed):
         for ic in (False, True):
             for n in range(0, maxn + 1):
                 if gn == 'many_keywords' and (ic or (tier == 'quick' and n > 2)):
+                    continue
+                if gn == 'punct_keywords' and ((ic and n != 2) or n > 3):
                     continue
                 if tier == 'quick' and ((ic and n < 2) or (n == 4 and gn not in ('choice', 'closure', 'memo_prefix'))):
                     continue
@@ -62,7 +66,7 @@ def plan(tier, seed):
                 for n in ((2, 3) if tier == 'quick' else (2, 3, 4)):
                     obs.append(Ob(name=f'{gn}_with-action_L{n}', factory='vt.props.c11:make_with_action', spec={'grammar': gn, 'ic': ic, 'n': n},
                                   params=[(f'c{i}', 0, UNI) for i in range(n)], budget=BUDGET[min(n, 3)] * (1 if n < 4 else 4), group='with-action'))
-            if (tier == 'quick' and ic and gn not in ('closure',)) or gn == 'many_keywords':
+            if (tier == 'quick' and ic and gn not in ('closure',)) or gn in ('many_keywords', 'punct_keywords'):
                 continue
             spec2 = {'grammar': gn, 'ic': ic, 'n': 3}
             obs.append(Ob(name=f'{gn}_{"ic" if ic else "cs"}_undecorated_L3', factory='vt.props.c11:make_undecorated', spec=spec2,
